@@ -60,7 +60,7 @@ class World:
         if kind in ('B', 'S') and parent is None:
             block = None
         line = 'mk %s %s %s %s %s' % (slot, kind, pslot, S(name), S(typ))
-        shape = pos = dt = None
+        shape = pos = dt = da = None
         if kind == 'A':
             dt = r.choice(['Double', 'Int32', 'String', 'UInt8', 'Float'])
             shape = extra if extra is not None else [r.choice([1, 2, 3, 5]) for _ in range(r.choice([1, 1, 2]))]
@@ -91,6 +91,7 @@ class World:
         e.shape = shape          # arrays: the extent they were created with
         e.dtype = dt             # arrays: the element type
         e.pos = pos              # multi-tags: the positions array
+        e.data = da if kind == 'R' else None     # features: the data array
         if kind == 'B':
             e.block = slot
         if name in self.taken(kind, pslot) or name in BAD_NAMES or typ == '':
